@@ -50,7 +50,8 @@ def plan(tier, seed):
     for kind, outs in OUTS.items():
         for n in sizes:
             for combo in itertools.product(range(len(outs)), repeat=n):
-                pres = ("none",) if kind == "PLACE" else ("none", "fill_first", "partial_first")
+                # stream_between: the exchange processes the call, an order-stream snapshot is handled, then the response arrives
+                pres = ("none", "stream_between") if kind == "PLACE" else ("none", "fill_first", "partial_first", "stream_between")
                 for pre in pres:
                     cases.append({"mode": "live", "kind": kind, "n": n, "out": list(combo), "pre": pre})
     # n = 3 on the quick tier: a seeded sample (complete on thorough)
@@ -75,7 +76,8 @@ def plan(tier, seed):
     # async placement
     for n in (1, 2):
         for combo in itertools.product(range(len(PLACE_OUT)), repeat=n):
-            cases.append({"mode": "live", "kind": "PLACE", "n": n, "out": list(combo), "pre": "none", "async": True})
+            for pre in ("none", "stream_between"):
+                cases.append({"mode": "live", "kind": "PLACE", "n": n, "out": list(combo), "pre": pre, "async": True})
     # simulation: orders completed in flight by being matched / lapsed / voided
     nsim = 4000 if tier == "quick" else 40000
     for i in range(nsim):
@@ -114,6 +116,9 @@ def run_live(case, out):
             with m.transaction() as t:
                 for o in orders:
                     t.place_order(o)
+            if case["pre"] == "stream_between" and w.executor.queue:
+                w.exchange_process(0)
+                w.snapshot()
             w.executor.run_all()
         else:
             with m.transaction() as t:
@@ -136,6 +141,9 @@ def run_live(case, out):
             if case["pre"] == "fill_first":
                 # the bet is taken at the exchange between the request and the response; the stream reports it
                 ex.fill(orders[0].bet_id, 100.0)
+                w.snapshot()
+            if case["pre"] == "stream_between" and w.executor.queue:
+                w.exchange_process(0)
                 w.snapshot()
             w.executor.run_all()
         ncalls = [c for c in ex.calls if c["kind"] == kind]
@@ -167,7 +175,7 @@ def run_live(case, out):
         # ---- transaction counts from the double's log
         exp = 0
         for c in ex.calls:
-            if not c["answered"]:
+            if not c["answered"] or c.get("memo_hit"):
                 continue
             if c["kind"] == "PLACE":
                 exp += len(c["instructions"])
@@ -181,6 +189,14 @@ def run_live(case, out):
             out.v("transaction-count-differs", dict(tags, direction="over" if got > exp else "under"), got=got, expected=exp, case=case)
         # ---- attribution
         answered = [c for c in ncalls if c["answered"]]
+        # every placement report is applied to the order whose instruction it answers
+        if answered and kind == "PLACE":
+            for o in orders:
+                pr = o.responses.place_response
+                out.rule("attribution")
+                ref = getattr(getattr(pr, "instruction", None), "customer_order_ref", None)
+                if pr is not None and ref is not None and ref != o.customer_order_ref:
+                    out.v("report-applied-to-wrong-order", tags, order_ref=o.customer_order_ref, report_ref=ref, case=case)
         if answered and kind in ("CANCEL", "UPDATE"):
             for o in orders:
                 resp = (o.responses.cancel_responses if kind == "CANCEL" else o.responses.update_responses)
